@@ -619,8 +619,13 @@ class MacroProgram(ElementProgram):
                     start['name'],
                     self._maybe_trim(start['prefix']),
                     self._maybe_trim(start['suffix']),
+                    # The static attributes, regardless of what the
+                    # dynamic ones (not part of the fallback) define.
                     nodes.Sequence(
-                        [attr for attr in attributes if
+                        [nodes.Attribute(
+                            attr.name, attr.expression, attr.quote,
+                            attr.eq, attr.space, attr.default, ())
+                         for attr in attributes if
                          isinstance(attr, nodes.Attribute) and
                          isinstance(attr.expression, ast.Constant) and
                          isinstance(attr.expression.value, str)]
